@@ -135,7 +135,7 @@ P2_SameOutcome == \A d1, d2 \in Derefers :
 P3_FlagsMonotone == [][(done => done') /\ (cancelled => cancelled')]_vars
 P4_DerefImpliesDone == anyDerefReturned => done
 \* cancel on a future that completed without having been cancelled returns false
-P5_CancelAfterCompletionIsFalse == (cpc = "returned" /\ startedAfter) => (cres = "false" /\ ~cancelled)
+P5_CancelAfterCompletionIsFalse == (cpc = "returned" /\ startedAfter) => (cres = "false" /\ ~cancelled /\ ~bodyCtxCancelled)
 P6_CancelWhileRunning == (cpc = "returned" /\ sawRunning) => (cres = "true" /\ cancelled /\ bodyCtxCancelled)
 P7_Termination == <>AllQuiet
 =============================================================================
